@@ -224,6 +224,9 @@ def run(chk, facts, tier, only=None):
         return cc, sorted(seen)
 
     def r2():
+        # precondition of the reviewed assumption on deserialize_seq / deserialize_map: the element count is bounded by a *checked*
+        # multiplication before any fast path is armed
+        de_rules.rule_bulk(chk, facts)
         n = 0
         nfn = 0
         for crate in ("candid", "ic_principal"):
